@@ -35,7 +35,7 @@ func init() {
 		Rule:           "runs = 10-40 server-authorization posts (new, duplicate with changed ports or location, ban, un-ban attempt, bad / foreign signature, before registration) to 1-3 mutually forwarding servers with peers up or down, each server's list compared with its model after every post; then 6-20 client sync rounds against real servers (lists, GCA-signed migration orders) and a rogue server (orders for another device, outer signature by a foreign or the new GCA, inner signatures by the old GCA, replays of non-banned entries, valid relayed orders) with client restarts; after every round the client's GCA, id and server map are compared with the model of the signature rules, the three files must decode to exactly the adopted state and a restart must resume with it; non-trivial = at least one ban was learned and one migration order (valid or forged) was presented; distinct = distinct decision signatures",
 		Real:           []string{"AuthorizedServersHandler GET/POST incl. forwarding to peers", "EquipmentMigrateHandler", "sync handler", "client sync round: parser, merge, migration adoption, persistence; client start-up load"},
 		Stub:           []string{"rogue server (harness, holding a configured server's key)", "TCP/HTTP (simulated fabric)"},
-		RequiredProbes: []string{"c17.srv.ban", "c17.srv.unban-attempt", "c17.srv.changed-ports", "c17.srv.forwarded", "c17.cli.ban-learned", "c17.cli.migration-adopted", "c17.cli.forged-order", "c17.cli.restart", "c17.cli.unban-replay", "c17.cli.forged-dup-entry"},
+		RequiredProbes: []string{"c17.srv.ban", "c17.srv.unban-attempt", "c17.srv.changed-ports", "c17.srv.forwarded", "c17.cli.ban-learned", "c17.cli.migration-adopted", "c17.cli.forged-order", "c17.cli.restart", "c17.cli.unban-replay", "c17.cli.forged-dup-entry", "c17.srv.altered-after-signing"},
 		RequiredSites:  []string{"srvauth.between", "csync.premerge", "csync.postmerge"},
 	})
 }
@@ -144,8 +144,22 @@ func runC17(m *Sim) {
 					m.Probe("c17.srv.unban-attempt")
 				}
 			}
-		case 4: // bad or foreign signature
+		case 4: // bad or foreign signature, or a signed entry altered afterwards
 			as = SignServer([]*KeyPair{Key("gcaB"), target.Key, target.Temp, newGCA}[m.C.Int("signer", 4)], server.AuthorizedServer{PublicKey: Key("intruder").Pub, Location: "intruder.sim", HttpPort: 1})
+			if m.C.Chance("altered-after-signing", 1, 2) {
+				as = entry(subject, false)
+				switch m.C.Int("alter", 4) {
+				case 0:
+					as.Banned = true // a non-banned authorization replayed as a ban
+				case 1:
+					as.HttpPort++
+				case 2:
+					as.Location += "x"
+				case 3:
+					as.PublicKey = Key("intruder").Pub
+				}
+				m.Probe("c17.srv.altered-after-signing")
+			}
 		case 5:
 			as = ghost
 		case 6: // a peer goes down or comes back
@@ -352,8 +366,14 @@ func runC17(m *Sim) {
 			case 5: // changed ports for a known server, GCA-signed: must be ignored
 				s := clientServers[0]
 				return mk(glow.PublicKey{}, 0, []server.AuthorizedServer{SignServer(gca, server.AuthorizedServer{PublicKey: s.Key.Pub, Location: "moved.sim", HttpPort: 5, TcpPort: 5, UdpPort: 5})}, [64]byte{})
-			default: // a valid relayed order (the GCA really signed it) with inner servers signed by the OLD GCA
-				em := SignMigration(gca, server.EquipmentMigration{Equipment: dev.Key.Pub, NewGCA: newGCA.Pub, NewShortID: newID, NewServers: []server.AuthorizedServer{SignServer(gca, server.AuthorizedServer{PublicKey: nn.Key.Pub, Location: nn.Loc, HttpPort: nn.HTTP, TcpPort: nn.TCP, UdpPort: nn.UDP})}})
+			default: // an order the GCA really signed, whose inner servers are not all signed by the NEW GCA
+				bad := SignServer(gca, server.AuthorizedServer{PublicKey: nn.Key.Pub, Location: nn.Loc, HttpPort: nn.HTTP, TcpPort: nn.TCP, UdpPort: nn.UDP})
+				inner := []server.AuthorizedServer{bad}
+				if m.C.Chance("bad-one-later", 1, 2) {
+					// several new servers, only a later one is wrongly signed
+					inner = []server.AuthorizedServer{newEntry, SignServer(newGCA, server.AuthorizedServer{PublicKey: Key("ns2").Pub, Location: "ns2.sim", HttpPort: 9}), SignServer(gca, server.AuthorizedServer{PublicKey: Key("ns3").Pub, Location: "ns3.sim", HttpPort: 9})}
+				}
+				em := SignMigration(gca, server.EquipmentMigration{Equipment: dev.Key.Pub, NewGCA: newGCA.Pub, NewShortID: newID, NewServers: inner})
 				m.Probe("c17.cli.forged-order")
 				orders++
 				return mk(em.NewGCA, em.NewShortID, em.NewServers, em.Signature)
@@ -419,6 +439,13 @@ func runC17(m *Sim) {
 			m.NoteState(RoleOf(model.gca), model.id, len(model.servers), nb)
 		} else {
 			compareState("failed-round")
+			// After a migration the device must be able to talk to the servers
+			// of the GCA it moved to (the only one here is honest and up).
+			if model.gca == newGCA.Pub && len(model.servers) == 1 && !model.servers[nn.Key.Pub].Banned && nn.Up {
+				if _, only := model.servers[nn.Key.Pub]; only {
+					m.Fail("C17.cli-adopt", "post-migration-sync", "after adopting the migration the client cannot complete a sync round with the (honest, reachable) server of its new GCA")
+				}
+			}
 		}
 	}
 	if bansLearned > 0 && orders > 0 {
